@@ -34,3 +34,16 @@ package spy
 //@     invariant [count] nsent(sub.ch) >= atEntry(nsent(sub.ch)) && ((nsent(sub.ch) > atEntry(nsent(sub.ch))) <==> (exists i in 0..$i :: filterHit(sub, v, i)))
 //@     invariant [bytes] nsent(sub.ch) > atEntry(nsent(sub.ch)) ==> lastsent(sub.ch).vaaBytes == vaaBytes
 //@     invariant [no-other-subscriber] unchangedExceptSinceEntry("chan", sub.ch)
+
+// SubscribeSignedVAA: the subscription that gets registered carries exactly one filter per
+// requested filter entry, naming the requested chain (no narrowing) and the decoded address.
+//@ func (s *spyServer) SubscribeSignedVAA(req *spyv1.SubscribeSignedVAARequest, resp spyv1.SpyRPCService_SubscribeSignedVAAServer) (err error)
+//@   props C20
+//@   requires s != nil && s.subs != nil && req != nil && (forall i in 0..len(req.Filters) :: req.Filters[i] != nil)
+//@   modifies *
+//@   replay spy_Subscribe.go.tmpl
+//@   at [fi = append(fi, filter{ chainId: vaa.ChainID(t.EmitterFilter.ChainId), emitterAddr: addr, })]: assume-env [set-oneof-has-message] t.EmitterFilter != nil
+//@   at [fi = append(fi, filter{ chainId: vaa.ChainID(t.EmitterFilter.ChainId), emitterAddr: addr, })]: assert [chain-not-narrowed] t.EmitterFilter.ChainId <= 65535
+//@   at [s.subs[id] = sub]: assert [one-filter-per-requested-entry] len(sub.filters) == old(len(req.Filters))
+//@   loop [range req.Filters]:
+//@     invariant [one-filter-per-entry] len(fi) == $i
